@@ -22,8 +22,10 @@ enum FoldFn {
     PairsNonCommutative,
     OptionElems,
     Panicking,
+    EitherElems,
+    PartialElems,
 }
-const FNS: [FoldFn; 5] = [FoldFn::History, FoldFn::CountLast, FoldFn::PairsNonCommutative, FoldFn::OptionElems, FoldFn::Panicking];
+const FNS: [FoldFn; 7] = [FoldFn::History, FoldFn::CountLast, FoldFn::PairsNonCommutative, FoldFn::OptionElems, FoldFn::Panicking, FoldFn::EitherElems, FoldFn::PartialElems];
 
 #[derive(Clone, Copy, Debug, PartialEq, Eq)]
 enum Source {
@@ -42,6 +44,18 @@ fn history_step(acc: &str, e8: Expr) -> Expr {
             let_("p", u(64), jet("multiply_32", vec![var(acc), int(31, 32)])),
             let_("lo", u(32), jet("rightmost_64_32", vec![var("p")])),
             let_pat(Pat::Tuple(vec![Pat::Ignore, pid("s")]), Ty::Tuple(vec![Ty::Bool, u(32)]), jet("add_32", vec![var("lo"), jet("left_pad_low_8_32", vec![e8])])),
+        ],
+        Some(var("s")),
+    )
+}
+
+/// acc' = (acc * 31 + x) mod 2^32 for x: u32
+fn history_step32(acc: &str, x32: Expr) -> Expr {
+    block(
+        vec![
+            let_("p", u(64), jet("multiply_32", vec![var(acc), int(31, 32)])),
+            let_("lo", u(32), jet("rightmost_64_32", vec![var("p")])),
+            let_pat(Pat::Tuple(vec![Pat::Ignore, pid("s")]), Ty::Tuple(vec![Ty::Bool, u(32)]), jet("add_32", vec![var("lo"), x32])),
         ],
         Some(var("s")),
     )
@@ -75,6 +89,18 @@ fn fold_function(kind: FoldFn, panic_at: Option<u8>) -> (Item, Ty, Ty, Val) {
             let body = block(vec![], Some(match_option(var("e"), jet("complement_32", vec![var("acc")]), "x", u(8), history_step("acc", var("x")))));
             (func("f", vec![("e", et.clone()), ("acc", u(32))], u(32), body), et, u(32), Val::uint(32, 3))
         }
+        FoldFn::EitherElems => {
+            // sides of different widths; both arms order-sensitive
+            let et = Ty::either(u(8), u(16));
+            let body = block(vec![], Some(match_either(var("e"), "x", u(8), history_step("acc", var("x")), "y", u(16), history_step32("acc", jet("left_pad_low_16_32", vec![var("y")])))));
+            (func("f", vec![("e", et.clone()), ("acc", u(32))], u(32), body), et, u(32), Val::uint(32, 5))
+        }
+        FoldFn::PartialElems => {
+            // the function reads only the first component of each element
+            let et = Ty::Tuple(vec![u(32), u(16)]);
+            let body = block(vec![let_pat(Pat::Tuple(vec![pid("x"), Pat::Ignore]), et.clone(), var("e"))], Some(history_step32("acc", var("x"))));
+            (func("f", vec![("e", et.clone()), ("acc", u(32))], u(32), body), et, u(32), Val::uint(32, 11))
+        }
         FoldFn::Panicking => {
             let k = panic_at.unwrap_or(0);
             let body = block(
@@ -92,6 +118,14 @@ fn element(kind: FoldFn, i: usize, salt: u64) -> Val {
     match kind {
         FoldFn::History | FoldFn::CountLast | FoldFn::Panicking => Val::uint(8, (i as u128 % 255) + 1),
         FoldFn::PairsNonCommutative => Val::Tuple(vec![Val::uint(8, byte), Val::Bool((i + salt as usize) % 3 != 0)]),
+        FoldFn::EitherElems => {
+            if (i + salt as usize) % 3 == 1 {
+                Val::Right(Box::new(Val::uint(16, byte * 257 % 65521 + 1)))
+            } else {
+                Val::Left(Box::new(Val::uint(8, byte)))
+            }
+        }
+        FoldFn::PartialElems => Val::Tuple(vec![Val::uint(32, byte * 65537 + i as u128), Val::uint(16, (i as u128 * 7 + 3) % 65536)]),
         FoldFn::OptionElems => {
             if (i + salt as usize) % 4 == 1 {
                 Val::None
@@ -250,7 +284,7 @@ pub fn streams() -> Vec<Stream> {
 pub fn def() -> PropertyDef {
     PropertyDef {
         id: "C08",
-        rule: "enumerated: bound N in {2,4,...,256} (thorough: ...512) x every length 0..N-1 for N <= 64 (thorough: all N) and the block-boundary lengths {0,1,2^j-1,2^j,2^j+1,N-2,N-1} above x fold functions {history acc*31+e mod 2^32, count-and-last (u16,u8), non-commutative on (u8,bool) pairs, Option<u8> elements, panicking assert!(e != K) with exactly one / no panicking position} x list source {literal, witness, returned by a function, result of a match, cast from the documented structural form}; element values pairwise distinct. Oracle: the reference interpreter's loop acc = f(e_i, acc), i = 1..k; the program asserts every integer of the folded value (1 constant deliberately wrong in 1/5 of the cases), and the verdict (success / panic) must equal the interpreter's, also with two elements swapped (witness source) and on the other match arm. evaluations = program executions. Non-trivial = length >= 2 (order observable); distinct by program text. exhaustive = the enumeration of the tier's (bound, length, function, source) grid completed.",
+        rule: "enumerated: bound N in {2,4,...,256} (thorough: ...512) x every length 0..N-1 for N <= 64 (thorough: all N) and the block-boundary lengths {0,1,2^j-1,2^j,2^j+1,N-2,N-1} above x fold functions {history acc*31+e mod 2^32, count-and-last (u16,u8), non-commutative on (u8,bool) pairs, Option<u8> elements, panicking assert!(e != K) with exactly one / no panicking position, Either<u8,u16> elements (sides of different width, both arms order-sensitive), (u32,u16) elements of which the function reads only the first component} x list source {literal, witness, returned by a function, result of a match, cast from the documented structural form}; element values pairwise distinct. Oracle: the reference interpreter's loop acc = f(e_i, acc), i = 1..k; the program asserts every integer of the folded value (1 constant deliberately wrong in 1/5 of the cases), and the verdict (success / panic) must equal the interpreter's, also with two elements swapped (witness source) and on the other match arm. evaluations = program executions. Non-trivial = length >= 2 (order observable); distinct by program text. exhaustive = the enumeration of the tier's (bound, length, function, source) grid completed.",
         assumptions: &[],
         streams,
         health: &[],
